@@ -290,17 +290,19 @@ Proof. intros E Pn. destruct Husr as (H1 & H2 & H3). now apply sub_path_eq. Qed.
 
 (* ------------------------------------------------------------------ one dirty layer directory *)
 Section OneDirty.
-Variables (f0 : fsT) (n : bytes) (P : option bytes -> Prop).
+Variables (S : list bytes) (f0 f1 : fsT) (n : bytes) (P : option bytes -> Prop).
 Hypothesis Pn : plain n.
+Hypothesis HnS : In n S.
 
-Definition hasdir (f : fsT) : Prop := exists m0, In (lp Lc n, m0) f.
+Definition hasdir (j : bytes) (f : fsT) : Prop := exists m0, In (lp Lc j, m0) f.
+(* what happens inside the directory of n leaves the other layers' layerconfigs and directories alone *)
+Definition frame (f : fsT) : Prop :=
+  forall j, plain j -> j <> n -> fs_get f (cfgp j) = fs_get f1 (cfgp j) /\ (hasdir j f1 -> hasdir j f).
 Definition Inv1 (w : world) : Prop :=
-  IB [n] f0 (w_fs w) /\ P (cfgbase (w_fs w) n) /\ (hasdir f0 -> hasdir (w_fs w)).
+  IB S f0 (w_fs w) /\ P (cfgbase (w_fs w) n) /\ (hasdir n f1 -> hasdir n (w_fs w)) /\ frame (w_fs w).
 Definition Tv1 (x : bytes) (w : world) : Prop :=
   Inv1 w /\ fs_get (w_fs w) (tmpp n) = Some (File x).
 
-Lemma In_n : In n [n].
-Proof. now left. Qed.
 Lemma tmpp_dirty : tmpp n = pa (Lc ++ n :: [lcf ++ tmp_suffix]).
 Proof. reflexivity. Qed.
 Lemma cfgp_dirty : cfgp n = pa (Lc ++ n :: [lcf]).
@@ -312,23 +314,62 @@ Proof.
   - apply plains_dirty; [exact Pn|constructor; [apply plain_lcf_tmp|constructor]].
   - apply plains_dirty; [exact Pn|constructor; [apply plain_lcf|constructor]].
 Qed.
-Lemma lp_ne_sub r : r <> [] -> plains r -> lp Lc n <> pa (Lc ++ n :: r).
+Lemma lp_ne_sub j r : r <> [] -> plain j -> plains r -> lp Lc j <> pa (Lc ++ n :: r).
 Proof.
-  intros Hr Pr E. unfold lp in E. apply pa_inj in E; [|now apply plains_lp|now apply plains_dirty].
-  apply app_inv_head in E. injection E as E. now symmetry in E.
+  intros Hr Pj Pr E. unfold lp in E. apply pa_inj in E; [|now apply plains_lp|now apply plains_dirty].
+  apply app_inv_head in E. injection E as _ E. now symmetry in E.
+Qed.
+Lemma sub_ne_cfgp j r : plain j -> j <> n -> plains r -> pa (Lc ++ n :: r) <> cfgp j.
+Proof.
+  intros Pj Hj Pr E. unfold cfgp in E. apply pa_inj in E.
+  - apply app_inv_head in E. injection E as E _. congruence.
+  - now apply plains_dirty.
+  - apply plains_dirty; [exact Pj|constructor; [apply plain_lcf|constructor]].
+Qed.
+Lemma sub_ne_lp j r : plain j -> j <> n -> plains r -> pa (Lc ++ n :: r) <> lp Lc j.
+Proof.
+  intros Pj Hj Pr E. unfold lp in E. apply pa_inj in E.
+  - apply app_inv_head in E. injection E as E _. congruence.
+  - now apply plains_dirty.
+  - now apply plains_lp.
 Qed.
 
 Lemma cfgbase_ext f f' : fs_get f' (cfgp n) = fs_get f (cfgp n) -> cfgbase f' n = cfgbase f n.
 Proof. intros E. unfold cfgbase. now rewrite E. Qed.
 
-Lemma inv_mkdir w w' n' r : Inv1 w -> P None -> n' = n -> plains r ->
-  op_result (OMkdir (pa (Lc ++ n' :: r))) w = Some w' -> Inv1 w'.
+Lemma frame_app f r nd : frame f -> plains r -> frame (f ++ [(pa (Lc ++ n :: r), nd)]).
 Proof.
-  intros (HI & HP & HD) PN -> Pr E. cbn [op_result] in E. unfold on_fres in E.
+  intros HF Pr j Pj Hj. destruct (HF j Pj Hj) as [H1 H2]. split.
+  - rewrite <- H1, fs_get_app. destruct (fs_get f (cfgp j)); [reflexivity|]. cbn [fs_get].
+    destruct (beq _ _) eqn:E; [apply beq_true in E; now apply sub_ne_cfgp in E|reflexivity].
+  - intros H. destruct (H2 H) as (m0 & Hm). exists m0. apply in_or_app. now left.
+Qed.
+Lemma frame_set f r nd : frame f -> plains r -> frame (fs_set f (pa (Lc ++ n :: r)) nd).
+Proof.
+  intros HF Pr j Pj Hj. destruct (HF j Pj Hj) as [H1 H2]. split.
+  - rewrite <- H1, fs_get_set. destruct (beq _ _) eqn:E; [apply beq_true in E; now apply sub_ne_cfgp in E|reflexivity].
+  - intros H. destruct (H2 H) as (m0 & Hm). exists m0. apply fs_set_In_other; [|exact Hm].
+    intros E. symmetry in E. now apply sub_ne_lp in E.
+Qed.
+
+Lemma inv_mkdir w w' r : Inv1 w -> plains r ->
+  op_result (OMkdir (pa (Lc ++ n :: r))) w = Some w' -> Inv1 w'.
+Proof.
+  intros (HI & HP & HD & HFr) Pr E. cbn [op_result] in E. unfold on_fres in E.
   destruct (mkdir_all (w_fs w) _) as [f'|] eqn:Em; [|discriminate]. injection E as <-. unfold Inv1. cbn [set_fs w_fs].
-  destruct (IB_mkdir [n] f0 _ n r f' HI In_n Pn Pr Em) as (H1 & H2 & H3). split; [exact H1|]. split.
-  - unfold cfgbase. destruct (H2 (cfgp n)) as [E|[_ E]]; rewrite E; [exact HP|exact PN].
+  destruct (IB_mkdir S f0 _ n r f' HI HnS Pn Pr Em) as (H1 & H2 & H3). split; [exact H1|]. split; [|split].
+  - unfold cfgbase in *. destruct (H2 (cfgp n)) as [E|[E0 E]]; rewrite E; [exact HP|]. now rewrite E0 in HP.
   - intros H. destruct (HD H) as (m0 & Hm). exists m0. now apply H3.
+  - intros j Pj Hj. destruct (HFr j Pj Hj) as [F1 F2]. split.
+    + rewrite <- F1. destruct (H2 (cfgp j)) as [E|[E0 E]]; [exact E|]. exfalso.
+      apply mkdir_all_shape in Em as (new & -> & Hnew). rewrite fs_get_app, E0 in E.
+      apply fs_get_In in E. unfold dirs in E. apply in_map_iff in E as (q & Eq & Hq). injection Eq as ->.
+      destruct (Hnew _ Hq) as [Hq' _]. apply prefixes_pa_in in Hq' as (i & t & Hi & Ei & Ep); [|now apply plains_dirty].
+      unfold cfgp in Ep. apply pa_inj in Ep.
+      * subst i. rewrite <- app_assoc in Ei. apply app_inv_head in Ei. cbn in Ei. injection Ei as Ei _. congruence.
+      * apply plains_dirty; [exact Pj|constructor; [apply plain_lcf|constructor]].
+      * destruct (plains_prefix i t _ (plains_dirty n r Pn Pr) Ei) as [Pi _]. exact Pi.
+    + intros H. destruct (F2 H) as (m0 & Hm). exists m0. now apply H3.
 Qed.
 
 (* creating or overwriting a file below the layer directory, other than its layerconfig *)
@@ -336,16 +377,18 @@ Lemma inv_put w r x : Inv1 w -> plains r -> r <> [] -> pa (Lc ++ n :: r) <> cfgp
   Inv1 (set_fs w (w_fs w ++ [(pa (Lc ++ n :: r), File x)])) /\
   Inv1 (set_fs w (fs_set (w_fs w) (pa (Lc ++ n :: r)) (File x))).
 Proof.
-  intros (HI & HP & HD) Pr Hr Hne. unfold Inv1. cbn [set_fs w_fs]. split; (split; [|split]).
-  - apply IB_app_file; auto using In_n.
+  intros (HI & HP & HD & HFr) Pr Hr Hne. unfold Inv1. cbn [set_fs w_fs]. split; (split; [|split; [|split]]).
+  - apply IB_app_file; auto.
   - rewrite (cfgbase_ext (w_fs w)); [exact HP|]. rewrite fs_get_app.
     destruct (fs_get (w_fs w) (cfgp n)); [reflexivity|]. cbn [fs_get].
     destruct (beq _ _) eqn:E; [apply beq_true in E; congruence|reflexivity].
   - intros H. destruct (HD H) as (m0 & Hm). exists m0. apply in_or_app. now left.
-  - apply IB_set_file; auto using In_n.
+  - now apply frame_app.
+  - apply IB_set_file; auto.
   - rewrite (cfgbase_ext (w_fs w)); [exact HP|]. rewrite fs_get_set.
     destruct (beq _ _) eqn:E; [apply beq_true in E; congruence|reflexivity].
   - intros H. destruct (HD H) as (m0 & Hm). exists m0. apply fs_set_In_other; [now apply lp_ne_sub|exact Hm].
+  - now apply frame_set.
 Qed.
 
 Lemma inv_write_text w w' r x : Inv1 w -> plains r -> r <> [] -> pa (Lc ++ n :: r) <> cfgp n ->
@@ -376,24 +419,31 @@ Proof.
 Qed.
 Lemma tv_drop x w : Tv1 x w -> Inv1 (drop_result (tmpp n) w).
 Proof.
-  intros [(HI & HP & HD) _]. unfold drop_result, Inv1. cbn [set_fs w_fs].
+  intros [(HI & HP & HD & HFr) _]. unfold drop_result, Inv1. cbn [set_fs w_fs].
   change (filter (fun x0 => negb (beq (fst x0) (tmpp n))) (w_fs w)) with (pfilter (fun q => negb (beq q (tmpp n))) (w_fs w)).
-  split; [|split].
+  assert (PT : plains [lcf ++ tmp_suffix]) by (constructor; [apply plain_lcf_tmp|constructor]).
+  split; [|split; [|split]].
   - apply IB_pfilter; [exact HI|]. intros [q m] Hin HLp. cbn [fst]. apply negb_true_iff, beq_false. intros ->.
-    rewrite tmpp_dirty, Lpred_dirty in HLp; auto using In_n; [discriminate|].
-    constructor; [apply plain_lcf_tmp|constructor].
+    rewrite tmpp_dirty, Lpred_dirty in HLp; auto; discriminate.
   - rewrite (cfgbase_ext (w_fs w)); [exact HP|]. rewrite fs_get_pfilter.
     destruct (beq (cfgp n) (tmpp n)) eqn:E; [apply beq_true in E; symmetry in E; now apply tmpp_ne_cfgp in E|reflexivity].
   - intros H. destruct (HD H) as (m0 & Hm). exists m0. apply filter_In. split; [exact Hm|]. cbn [fst].
-    apply negb_true_iff, beq_false. rewrite tmpp_dirty. apply lp_ne_sub; [discriminate|].
-    constructor; [apply plain_lcf_tmp|constructor].
+    apply negb_true_iff, beq_false. rewrite tmpp_dirty. apply lp_ne_sub; [discriminate|exact Pn|exact PT].
+  - intros j Pj Hj. destruct (HFr j Pj Hj) as [F1 F2]. split.
+    + rewrite <- F1, fs_get_pfilter.
+      destruct (beq (cfgp j) (tmpp n)) eqn:E; [|reflexivity]. apply beq_true in E. symmetry in E.
+      rewrite tmpp_dirty in E. now apply sub_ne_cfgp in E.
+    + intros H. destruct (F2 H) as (m0 & Hm). exists m0. apply filter_In. split; [exact Hm|]. cbn [fst].
+      apply negb_true_iff, beq_false. intros E. symmetry in E. rewrite tmpp_dirty in E. now apply sub_ne_lp in E.
 Qed.
 
 (* the rename into place *)
 Lemma tv_rename x w w' : Tv1 x w -> op_result (ORename (tmpp n) (cfgp n)) w = Some w' ->
-  IB [n] f0 (w_fs w') /\ cfgbase (w_fs w') n = Some (lf_base (read_layerfile x)) /\ (hasdir f0 -> hasdir (w_fs w')).
+  IB S f0 (w_fs w') /\ cfgbase (w_fs w') n = Some (lf_base (read_layerfile x)) /\
+  fs_get (w_fs w') (cfgp n) = Some (File x) /\
+  (hasdir n f1 -> hasdir n (w_fs w')) /\ frame (w_fs w').
 Proof.
-  intros [(HI & HP & HD) Eg] E. cbn [op_result] in E. unfold on_fres in E.
+  intros [(HI & HP & HD & HFr) Eg] E. cbn [op_result] in E. unfold on_fres in E.
   destruct (rename (w_fs w) (tmpp n) (cfgp n)) as [f'|] eqn:Er; [|discriminate]. injection E as <-. cbn [set_fs w_fs].
   apply rename_shape in Er as [[E _]|(na & Ea & Eu & -> & _)]; [now apply tmpp_ne_cfgp in E|].
   set (F := filter (not_at (cfgp n)) (w_fs w)).
@@ -414,7 +464,19 @@ Proof.
     - constructor.
     - intros [q m] Hin. apply filter_In in Hin as [_ Hin]. unfold not_at in Hin. cbn [fst] in *.
       now apply negb_true_iff, beq_false in Hin. }
-  split; [constructor|split].
+  assert (Hoth : forall q, at_or_under (tmpp n) q = false -> at_or_under (cfgp n) q = false ->
+                 fs_get (map (move_entry (tmpp n) (cfgp n)) F) q = fs_get (w_fs w) q).
+  { intros q H1 H2. unfold tmpp, cfgp in *.
+    rewrite (rename_get_other (Lc ++ [n; lcf ++ tmp_suffix]) (Lc ++ [n; lcf]) PT PC NE F q HF H1 H2).
+    apply HFg. intros ->. unfold at_or_under in H2. now rewrite beq_refl in H2. }
+  assert (Hnot : forall j r0 x0, plain j -> j <> n -> plains r0 -> plain x0 ->
+                 at_or_under (pa (Lc ++ [n; x0])) (pa (Lc ++ j :: r0)) = false).
+  { intros j r0 x0 Pj Hj Pr0 Px0.
+    destruct (at_or_under (pa (Lc ++ [n; x0])) (pa (Lc ++ j :: r0))) eqn:Ea2; [|reflexivity]. exfalso.
+    apply at_or_under_pa in Ea2 as (r & Er);
+      [|apply plains_dirty; [exact Pn|constructor; [exact Px0|constructor]]|now apply plains_dirty].
+    rewrite <- app_assoc in Er. apply app_inv_head in Er. cbn in Er. injection Er as Er _. congruence. }
+  split; [constructor|split; [|split; [|split]]].
   - apply (move_clean (Lc ++ [n; lcf ++ tmp_suffix]) (Lc ++ [n; lcf]) PT PC NE F HF).
   - intros y t Py Ey. apply fs_get_move_cases in Ey as [[_ Ey]|(p & Hp1 & Hp2 & Hp3)].
     + destruct (beq (cfgp y) (cfgp n)) eqn:E.
@@ -431,19 +493,30 @@ Proof.
       destruct r; [|discriminate]. rewrite app_nil_r in Hp3. fold (tmpp n) in Hp3.
       rewrite HFg in Hp3 by apply tmpp_ne_cfgp. congruence.
   - unfold F, tmpp, cfgp.
-    rewrite (Lpart_rename [n] (w_fs w) n [lcf ++ tmp_suffix] n [lcf]); auto using In_n.
+    rewrite (Lpart_rename S (w_fs w) n [lcf ++ tmp_suffix] n [lcf]); auto.
     + apply (ib_part _ _ _ HI).
     + apply (ib_clean _ _ _ HI).
     + constructor; [apply plain_lcf_tmp|constructor].
     + constructor; [apply plain_lcf|constructor].
   - unfold cfgbase. now rewrite Etgt.
+  - exact Etgt.
   - intros H. destruct (HD H) as (m0 & Hm). exists m0. apply in_map_iff. exists (lp Lc n, m0). split.
     + unfold move_entry. cbn [fst snd].
       destruct (at_or_under (tmpp n) (lp Lc n)) eqn:Ea2; [|reflexivity]. exfalso. unfold tmpp, lp in Ea2.
       apply at_or_under_pa in Ea2 as (r & Er); [|exact PT|now apply plains_lp].
       apply (f_equal (@length _)) in Er. rewrite !app_length in Er. cbn in Er. lia.
     + apply filter_In. split; [exact Hm|]. unfold not_at. cbn [fst]. apply negb_true_iff, beq_false.
-      rewrite cfgp_dirty. apply lp_ne_sub; [discriminate|constructor; [apply plain_lcf|constructor]].
+      rewrite cfgp_dirty. apply lp_ne_sub; [discriminate|exact Pn|constructor; [apply plain_lcf|constructor]].
+  - intros j Pj Hj. destruct (HFr j Pj Hj) as [F1 F2]. split.
+    + rewrite <- F1. apply Hoth.
+      * unfold tmpp, cfgp. apply (Hnot j [lcf] (lcf ++ tmp_suffix) Pj Hj); [constructor; [apply plain_lcf|constructor]|apply plain_lcf_tmp].
+      * unfold cfgp. apply (Hnot j [lcf] lcf Pj Hj); [constructor; [apply plain_lcf|constructor]|apply plain_lcf].
+    + intros H. destruct (F2 H) as (m0 & Hm). exists m0. apply in_map_iff. exists (lp Lc j, m0). split.
+      * unfold move_entry. cbn [fst snd]. unfold tmpp, lp. change (Lc ++ [j]) with (Lc ++ j :: []).
+        rewrite (Hnot j [] (lcf ++ tmp_suffix) Pj Hj); [reflexivity|constructor|apply plain_lcf_tmp].
+      * apply filter_In. split; [exact Hm|]. unfold not_at. cbn [fst]. apply negb_true_iff, beq_false.
+        intros E. symmetry in E. rewrite cfgp_dirty in E. apply sub_ne_lp in E; auto.
+        constructor; [apply plain_lcf|constructor].
 Qed.
 End OneDirty.
 
@@ -484,39 +557,41 @@ Hypothesis Hn0 : nolink f0.
 Definition PAdd (v : option bytes) : Prop := v = None \/ v = Some b.
 Definition AddFacts : Prop :=
   plain n /\ legal_name n = true /\ G f0 n = None /\ cfgbase f0 n = None /\ (b = [] \/ G f0 b <> None).
-Definition IvAdd (w : world) : Prop := w_fs w = f0 \/ (AddFacts /\ Inv1 f0 n PAdd w).
+Definition IvAdd (w : world) : Prop := w_fs w = f0 \/ (AddFacts /\ Inv1 [n] f0 f0 n PAdd w).
 
-Lemma add_start w : AddFacts -> w_fs w = f0 -> Inv1 f0 n PAdd w.
+Lemma add_start w : AddFacts -> w_fs w = f0 -> Inv1 [n] f0 f0 n PAdd w.
 Proof.
-  intros (_ & _ & _ & Hcb & _) E. unfold Inv1. rewrite E. split; [now apply IB_refl|]. split; [now left|auto].
+  intros (_ & _ & _ & Hcb & _) E. unfold Inv1. rewrite E. split; [now apply IB_refl|]. split; [now left|].
+  split; [auto|]. intros j _ _. split; auto.
 Qed.
-Lemma add_inv_of w : AddFacts -> IvAdd w -> Inv1 f0 n PAdd w.
+Lemma add_inv_of w : AddFacts -> IvAdd w -> Inv1 [n] f0 f0 n PAdd w.
 Proof. intros HF [E|[_ H]]; [now apply add_start|exact H]. Qed.
 
 Lemma add_mkdir_step e p r : AddFacts -> p = pa (Lc ++ n :: r) -> plains r ->
   hs IvAdd false (fs_mkdir e p) (fun _ => True).
 Proof.
   intros HF -> Pr. unfold fs_mkdir. apply hs_true, hoare_do_op. intros w w' HI _ E. right. split; [exact HF|].
-  destruct HF as (Pn & HF'). eapply (inv_mkdir f0 n PAdd Pn w w' n r); eauto; [apply add_inv_of; [|exact HI]|now left].
-  now split.
+  destruct HF as (Pn & HF'). eapply (inv_mkdir [n] f0 f0 n PAdd Pn (or_introl eq_refl) w w' r); eauto.
+  apply add_inv_of; [|exact HI]. now split.
 Qed.
 Lemma add_write_text_step e p r x : AddFacts -> p = pa (Lc ++ n :: r) -> plains r -> r <> [] -> p <> cfgp n ->
   hs IvAdd false (fs_write_text e p x) (fun _ => True).
 Proof.
   intros HF -> Pr Hr Hne. apply hs_true, hoare_write_text. intros w w' HI _ E. right. split; [exact HF|].
-  pose proof HF as (Pn & _). eapply (inv_write_text f0 n PAdd Pn w w' r x); eauto. now apply add_inv_of.
+  pose proof HF as (Pn & _). eapply (inv_write_text [n] f0 f0 n PAdd Pn (or_introl eq_refl) w w' r x); eauto. now apply add_inv_of.
 Qed.
 Lemma add_write_cfg_step e l : AddFacts -> l_path l = layer_path c n -> l_base l = b -> mounts_ok l ->
   hs IvAdd false (write_layerfile e l) (fun _ => True).
 Proof.
   intros HF Ep Eb (Hb & Hm & He). pose proof HF as (Pn & _). unfold write_layerfile.
   rewrite (layerconfig_path_eq l n Ep Pn). apply hs_true.
-  apply (write_atomically_rule IvAdd (fun x w => Tv1 f0 n PAdd x w)); rewrite ?tmp_path_eq.
-  - intros w w' HI E. eapply tv_open; eauto. now apply add_inv_of.
-  - intros x ch w HT. now apply tv_append.
-  - intros x w HT. right. split; [exact HF|]. eapply tv_drop; eauto.
+  apply (write_atomically_rule IvAdd (fun x w => Tv1 [n] f0 f0 n PAdd x w)); rewrite ?tmp_path_eq.
+  - intros w w' HI E. apply (tv_open [n] f0 f0 n PAdd Pn (or_introl eq_refl) w w'); [now apply add_inv_of|exact E].
+  - intros x ch w HT. now apply (tv_append [n] f0 f0 n PAdd Pn (or_introl eq_refl)).
+  - intros x w HT. right. split; [exact HF|]. now apply (tv_drop [n] f0 f0 n PAdd Pn (or_introl eq_refl) x).
   - intros w w' HT E. right. split; [exact HF|].
-    destruct (tv_rename f0 n PAdd Pn _ w w' HT E) as (H1 & H2 & H3). split; [exact H1|]. split; [|exact H3].
+    destruct (tv_rename [n] f0 f0 n PAdd Pn (or_introl eq_refl) _ w w' HT E) as (H1 & H2 & _ & H3 & H4).
+    split; [exact H1|]. split; [|now split].
     right. rewrite H2, layerfile_roundtrip by assumption. cbn [lf_base]. now rewrite Eb.
   - intros x w [HT _]. right. now split.
 Qed.
@@ -626,11 +701,12 @@ Hypothesis Hn0 : nolink f0.
 Definition PReb (v : option bytes) : Prop := v = cfgbase f0 a \/ v = Some b.
 Definition RebFacts : Prop :=
   plain a /\ legal_name a = true /\ hasdir a f0 /\ G f0 a = cfgbase f0 a /\ gforest (g_add (G f0) a b).
-Definition IvReb (w : world) : Prop := w_fs w = f0 \/ (RebFacts /\ Inv1 f0 a PReb w).
+Definition IvReb (w : world) : Prop := w_fs w = f0 \/ (RebFacts /\ Inv1 [a] f0 f0 a PReb w).
 
-Lemma reb_inv_of w : RebFacts -> IvReb w -> Inv1 f0 a PReb w.
+Lemma reb_inv_of w : RebFacts -> IvReb w -> Inv1 [a] f0 f0 a PReb w.
 Proof.
-  intros HF [E|[_ H]]; [|exact H]. unfold Inv1. rewrite E. split; [now apply IB_refl|]. split; [now left|auto].
+  intros HF [E|[_ H]]; [|exact H]. unfold Inv1. rewrite E. split; [now apply IB_refl|]. split; [now left|].
+  split; [auto|]. intros j _ _. split; auto.
 Qed.
 
 Lemma reb_write_cfg_step e l : RebFacts -> l_path l = layer_path c a -> l_base l = b -> mounts_ok l ->
@@ -638,19 +714,20 @@ Lemma reb_write_cfg_step e l : RebFacts -> l_path l = layer_path c a -> l_base l
 Proof.
   intros HF Ep Eb (Hb & Hm & He). pose proof HF as (Pn & _). unfold write_layerfile.
   rewrite (layerconfig_path_eq l a Ep Pn). apply hs_true.
-  apply (write_atomically_rule IvReb (fun x w => Tv1 f0 a PReb x w)); rewrite ?tmp_path_eq.
-  - intros w w' HI E. eapply tv_open; eauto. now apply reb_inv_of.
-  - intros x ch w HT. now apply tv_append.
-  - intros x w HT. right. split; [exact HF|]. eapply tv_drop; eauto.
+  apply (write_atomically_rule IvReb (fun x w => Tv1 [a] f0 f0 a PReb x w)); rewrite ?tmp_path_eq.
+  - intros w w' HI E. apply (tv_open [a] f0 f0 a PReb Pn (or_introl eq_refl) w w'); [now apply reb_inv_of|exact E].
+  - intros x ch w HT. now apply (tv_append [a] f0 f0 a PReb Pn (or_introl eq_refl)).
+  - intros x w HT. right. split; [exact HF|]. now apply (tv_drop [a] f0 f0 a PReb Pn (or_introl eq_refl) x).
   - intros w w' HT E. right. split; [exact HF|].
-    destruct (tv_rename f0 a PReb Pn _ w w' HT E) as (H1 & H2 & H3). split; [exact H1|]. split; [|exact H3].
+    destruct (tv_rename [a] f0 f0 a PReb Pn (or_introl eq_refl) _ w w' HT E) as (H1 & H2 & _ & H3 & H4).
+    split; [exact H1|]. split; [|now split].
     right. rewrite H2, layerfile_roundtrip by assumption. cbn [lf_base]. now rewrite Eb.
   - intros x w [HT _]. right. now split.
 Qed.
 
 Lemma reb_final w : IvReb w -> gforest (G f0) -> gforest (G (w_fs w)).
 Proof.
-  intros [->|((Pn & Ln & Hd & Hg & HGa) & (HI & HP & HD))] HG; [exact HG|].
+  intros [->|((Pn & Ln & Hd & Hg & HGa) & (HI & HP & HD & _))] HG; [exact HG|].
   assert (Hout : forall x, x <> a -> G (w_fs w) x = G f0 x).
   { intros x Hx. apply (G_out [a]); auto.
     - apply (ib_clean _ _ _ HI).
